@@ -15,7 +15,7 @@ CLAIMED.update({
  'C07': dict(
    technique='Lean 4 proof: arithmetic of the 64-bit padding formula (BitVec link + minimality), power-of-two units and block alignment by mutual structural induction; correspondence on real schema rows',
    text='Kernel-checked: pad_is_bit_formula (the model formula is the crate\'s wrapping_neg & (u-1) on 64-bit words), pad_spec (for every offset and power-of-two unit: aligned, smaller than the unit, minimal), unit_pow2 / unit_ge_field (units are powers of two, >= native alignment and field units), blocks_aligned (every zero-copy block of every serialized value starts at a multiple of its unit), zero_block_shape_* (exactly pad zero bytes precede the data), count_exact_full. The implementation is compared with the model on layouts (size_of/align_of/max_size_of), on the schema rows recorded by the real serialize_with_schema (block offsets, padding rows) and on byte counts.',
-   note='unit theorems exclude ranges over index types whose size is not a power of two (Ty.wf), a recorded limitation; rustc layout is modelled and validated per run.',
+   note='unit theorems exclude ranges over index types whose size is not a power of two (Ty.wf): there the property is false of the code (known finding KF-C07-1, witness RangeTo<[u8; 3]>, unit 3, replayed on every run); rustc layout is modelled and validated per run.',
    design='5/C07'),
  'C10': dict(
    technique='Lean 4 proof: complete decision table of check_header over every content of the 29 fixed bytes (surjectivity of the field decoding), tied by exhaustive bit flips on the real code',
@@ -38,7 +38,7 @@ CLAIMED.update({
  'C12': dict(
    technique='Lean 4 proof: both directions of placement by mutual structural induction (aligned ⇒ value, any misplaced block ⇒ AlignmentError at the first one), tied by running the real deserialize_eps at all 128 base residues',
    text='Kernel-checked: eps_align_iff (deserialize_eps of a serialized stream at address base returns a value iff every zero-copy block lands on a multiple of its unit, AlignmentError otherwise), no_misaligned_ref (a returned value never contains a borrowed node off its unit), unit_implies_align, byte_aligned_anywhere. The run places real streams at every residue modulo 128 in a 128-aligned arena and compares outcome with the model and with the arithmetic on the real schema blocks.',
-   note='real addresses are modelled as base + offset; the harness measures real pointers.',
+   note='real addresses are modelled as base + offset; the harness measures real pointers. Known finding KF-C12-1 (byte-aligned data under RangeTo<[u8; 3]> refused at addresses that are not multiples of 3) is replayed on every run.',
    design='5/C12'),
 })
 
@@ -82,8 +82,8 @@ CLAIMED.update({
 CLAIMED.update({
  'C18': dict(
    technique='Lean 4 proof: the schema as a forest, tiling / alignment / in-stream invariants by mutual structural induction on the type universe and on the forest; rows compared with the real serialize_with_schema',
-   text='Kernel-checked: rows_preorder (the schema is the pre-order traversal of the forest), top_tile (top-level rows are contiguous from 0 to the end of the stream), children_tile (the children of every composite row tile it, at every depth), zero_rows_aligned (each zero-copy block starts at a multiple of its recorded alignment), rows_in_stream (every row lies within the stream, hence debug/to_csv index only inside it). The run compares the rows recorded by the real SchemaWriter with the model forest for every generated value, the bytes with the plain writer, and evaluates the invariants (incl. zero padding bytes, debug/to_csv not panicking) on the real rows.',
-   note='that the recording writer writes the same bytes, and that padding rows cover zero bytes, are checked by the correspondence/oracle (and C07.zero_block_shape), not separate theorems; field names are abstracted to path depth in the model.',
+   text='Kernel-checked: rows_preorder (the schema is the pre-order traversal of the forest), top_tile (top-level rows are contiguous from 0 to the end of the stream), children_tile (the children of every composite row tile it, at every depth), zero_rows_aligned (each zero-copy block starts at a multiple of its recorded alignment), rows_in_stream (every row lies within the stream, hence debug/to_csv index only inside it), padding_rows_zero (every PADDING node, at any depth, covers bytes of the stream that are all zero — for every type and well-typed value). The run compares the rows recorded by the real SchemaWriter with the model forest for every generated value, the bytes with the plain writer, and evaluates the invariants (incl. zero padding bytes, debug/to_csv not panicking) on the real rows.',
+   note='that the recording writer hands the sink the same bytes as the plain writer is checked by the correspondence (one encoder in the model); field names are abstracted to path depth in the model.',
    design='5/C18'),
 })
 
